@@ -23,7 +23,7 @@ class C09(Prop):
     groups = {"bip": Group("bip", "From SCK Require Import FlowModel BipModel RunBip.", "RunBip.bip_case", "RunBip.chk_bip")}
     rule = ("exhaustive: all bipartite graphs with 3+3 vertices (512 edge sets) in the directed and the undirected encoding, plus all on 2+3/3+2; "
             "random: up to 7+7 vertices, densities .1-.8, isolated vertices on both sides, shuffled dict/adjacency orders; "
-            "malformed stream (inconsistent X/Y) compared on the error class only. Non-trivial = non-empty matching; distinct by input hash")
+            "adjacency lists that repeat an edge (oracle only); malformed stream (inconsistent X/Y) compared on the error class only. Non-trivial = non-empty matching; distinct by input hash")
     trusted_base = ["models FlowModel.v/BipModel.v of flow.py:205-277; validation (check_bipartite_graph) is not modelled: valid inputs must not raise, inconsistent X/Y must raise ValueError"]
     assumptions = ["graph is bipartite w.r.t. the supplied X, Y (wfbb): X, Y duplicate-free and disjoint, not using the reserved ids -1/-2, left adjacency lists duplicate-free and inside Y"]
     deadline = 10.0
@@ -54,6 +54,15 @@ class C09(Prop):
             dens = rng.choice([0.1, 0.2, 0.5, 0.8])
             es = [(x, y) for x in X for y in Y if rng.random() < dens]
             yield self.mk("random", X, Y, es, rng.random() < 0.5, rng)
+        # the same edge listed more than once in an adjacency list (still the same graph; outside the model's domain
+        # predicate, so decided by the direct oracle on the implementation only)
+        for _ in range(200 if tier == "quick" else 5000):
+            a = rng.randint(1, 5); b = rng.randint(1, 5)
+            ids = rng.sample(range(0, 20), a + b)
+            X, Y = ids[:a], ids[a:]
+            es = [(x, y) for x in X for y in Y if rng.random() < rng.choice([0.3, 0.6])]
+            es = es + [e for e in es if rng.random() < 0.4]
+            yield self.mk("repeated", X, Y, es, rng.random() < 0.5, rng)
         for _ in range(30):
             a = rng.randint(1, 4); b = rng.randint(1, 4)
             X = list(range(a)); Y = list(range(a, a + b))
@@ -118,7 +127,7 @@ class C09(Prop):
         return None
 
     def coq(self, case, obs):
-        if case["family"] == "malformed":
+        if case["family"] in ("malformed", "repeated"):
             return None
         g = cl([ct(cz(k), cl([cz(v) for v in a])) for k, a in case["G"]])
         return ("bip", ct(g, cl([cz(x) for x in case["X"]]), cl([cz(y) for y in case["Y"]]), cn(obs["fuel"]),
